@@ -170,7 +170,8 @@ def validDomain (h : Bytes) : Bool :=
 
 inductive HostRes | bucket (b : Option Bytes) | error | unmodelled
 
-/-- `prepare`: the bucket `SingleDomain::parse_host_header` derives from the Host header -/
+/-- `prepare`: the bucket `SingleDomain::parse_host_header` derives from the Host header; for a valid host
+    outside the base domain that is `bucket_of_host(host)`: what stands before the first `:`, in lower case -/
 def implVhBucket (cfg host : Option Bytes) : HostRes :=
   match cfg, host with
   | some base, some h =>
@@ -178,8 +179,18 @@ def implVhBucket (cfg host : Option Bytes) : HostRes :=
     else if h = base then .bucket none
     else match SigV2Spec.dropSuffix (46 :: base) h with
       | some b => .bucket (some b)
-      | none => if validDomain h then .bucket (some (SigV2Spec.lower h)) else .error
+      | none => if validDomain h then .bucket (some (SigV2Spec.lower (h.takeWhile (· ≠ 58)))) else .error
   | _, _ => .bucket none
+
+/-- the region of finding F-sigv2e2e-6 (class `vhost-bucket-derivation`): a valid Host outside the base domain
+    that carries a port. There the code once (before the repair of `host.rs`) took the whole `host:port` as the
+    bucket, which `check_bucket_name` refuses before the signature is looked at. A function of the input only. -/
+def vhostPortRegion (cfg host : Option Bytes) : Bool :=
+  match cfg, host with
+  | some base, some h =>
+    !(allDigitsOrDots h || h.any (· = 91)) && h ≠ base && (SigV2Spec.dropSuffix (46 :: base) h).isNone &&
+      validDomain h && h.any (· = 58)
+  | _, _ => false
 
 def specVhBucket (cfg host : Option Bytes) : Option Bytes :=
   match cfg, host with
@@ -256,7 +267,7 @@ def judgeE2E (id : String) (hostCfg : Option Bytes) (aks secrets : List Bytes) (
         specfail id "unverified-signature-passed-as-anonymous" s!"access={access} backend={backend} tag={tag}"
       else if implKey ≠ sv then
         let cls :=
-          if vh ≠ specVhBucket hostCfg hostHeader then "vhost-bucket-derivation"
+          if vh ≠ specVhBucket hostCfg hostHeader || vhostPortRegion hostCfg hostHeader then "vhost-bucket-derivation"
           else match credsClass r with
             | some c => c
             | none => shapeClass r
